@@ -54,7 +54,7 @@ def gen_case(rng, quick=True, impl=None):
                 seed=rng.randint(0, 2 ** 31 - 1),
                 # documented options that must not change the distribution of the samples
                 jax_cg=rng.choice(["cg", "static_cg"]), jit_metric=rng.random() < 0.5, ovi_jit=rng.random() < 0.3,
-                cl_napprox=rng.choice([0, 0, 2]))
+                cl_napprox=rng.choice([0, 2, 3]))     # napprox=1 is rejected by the code (variance of one probe)
 
 
 def _arrs(c):
@@ -424,6 +424,14 @@ def run(ctx):
             c["pe"] = pe
             c["model"] = "linear" if pe == "a" else "quad"
             cases.append(c)
+    # directed: classic preconditioned linear sampling (napprox >= 1) on informative data, MultiDomain latent space
+    for napprox, pe, model in ((3, "none", "linear"), (2, "none", "tanh"), (2, "a", "linear")):
+        for _ in range(50):
+            c = gen_case(rng, ctx.quick, impl="cl")
+            if c["m"] >= 2 and sum(1 for r in c["R"] for x in r if fr(x) != 0) >= c["m"]:
+                break
+        c.update(cl_napprox=napprox, pe=pe, model=model, N=[rs(Fraction(1, 16))] * c["m"])
+        cases.append(c)
     lines, keeps = [], []
     for c in cases:
         J, keep = jacobian_liquid(c)
